@@ -163,6 +163,35 @@ func c05(c *Ctx) {
 		c.Check(fresh != nil && len(bad) == 0, "R2", "attribute|(*Set).Filter|in-place operations only on l.ToSlice()", at(ax.M, fn.Pos()), "the original Set is untouched", "Filter modifies storage that is not its own fresh copy: "+joinStr(bad))
 	}
 	if fn := c.Fn(ax, "R2", "(*Iterator).ToSlice"); fn != nil {
+		// when the slice is collected by stepping the iterator itself, the iterator is rewound first
+		g := ax.FG(fn)
+		fIdx := lookupField(ax.Pkg, "Iterator", "idx")
+		nexts := g.Match(func(n ast.Node) bool {
+			call, ok := n.(*ast.CallExpr)
+			if !ok {
+				return false
+			}
+			cf := callee(ainfo, call)
+			return cf != nil && cf.Name() == "Next" && cf.Pkg() == ax.Pkg.Types
+		})
+		if len(nexts) > 0 {
+			rew := toSet(g.Match(func(n ast.Node) bool {
+				r := assignRHS(n, func(e ast.Expr) bool { return isField(ainfo, e, fIdx) })
+				if r == nil {
+					return false
+				}
+				v, isC := constInt(ainfo, r)
+				return isC && v == -1
+			}))
+			okR := len(rew) > 0
+			for _, x := range nexts {
+				if d, _ := g.DominatedByNodes(x, rew); !d {
+					okR = false
+				}
+			}
+			c.Check(okR, "R2", "attribute|(*Iterator).ToSlice|iterator rewound (idx = -1) before it is stepped", at(ax.M, fn.Pos()), "ToSlice returns the whole set wherever the iterator stands",
+				"ToSlice steps the iterator from its current position: after a Next() the first attributes are missing, a second ToSlice returns nothing")
+		}
 		good := true
 		n := 0
 		inspectNoLit(fn.Body(), func(nd ast.Node) bool {
